@@ -125,6 +125,9 @@ def compare(prog, it, mt):
             if U.show(a["locals"][n]) != U.show(b["locals"][n]):
                 return "%s: %s = %s, model %s" % (where, n, U.show(a["locals"][n]), U.show(b["locals"][n]))
         for n, x, y in zip(prog.pool(), a["pool"], b["pool"]):
+            if n == "@obj.body":
+                # a reader over the text: only the text is there to compare (no not-set / literal marks)
+                x, y = (x[:2] if isinstance(x, (list, tuple)) else x), (y[:2] if isinstance(y, (list, tuple)) else y)
             if U.show(x) != U.show(y):
                 return "%s: %s = %s, model %s" % (where, n, U.show(x), U.show(y))
     if len(ie) != len(me):
@@ -154,6 +157,8 @@ def stmt_exprs(s):
         return [("raw", "", s[2])]
     if k == "add":
         return [s[2]]
+    if k == "synth":
+        return [s[1]]
     if k == "error":
         return [e for e in s[1:3] if e is not None]
     if k == "switch":
@@ -166,7 +171,7 @@ _EFFECTS = None
 # ctx fields a built-in may write (Gen/StoreEffects.v) -> the pool name that shows them
 EFFECT_CELL = {"FastlyError": "@fastly.error", "RequestWorkspaceBytes": "@workspace"}
 STMT_KIND = {"set": "Set", "add": "Add", "unset": "Unset", "decl": "Declare", "log": "Log", "if": "If", "call": "Call",
-             "ret": "Return", "switch": "Switch", "error": "Error"}
+             "ret": "Return", "switch": "Switch", "error": "Error", "unsetwild": "Unset", "synth": "Synthetic"}
 OBJ_FIELD = {"req": "Request.Header", "bereq": "BackendRequest.Header", "beresp": "BackendResponse.Header",
              "resp": "Response.Header", "obj": "Object.Header"}
 
@@ -270,10 +275,16 @@ def oracle(prog, it, linemap):
         calls = s[0] == "call" or any(G.expr_has(e, ("call",)) for e in exprs)
         matches = any(G.expr_has(e, ("match",)) for e in exprs)
         target = prog.name_text(s[1]) if s[0] in ("set", "unset", "add") else ("var.v%d" % s[1] if s[0] == "decl" else None)
+        if s[0] == "synth":
+            target = "@obj.body"
         implicit = ("@obj.status", "@obj.response", "obj.response") if s[0] == "error" else ()
         if s[0] == "rawstmt":
             target = s[2].get("target")
         derived = derived_of(target, pool)
+        if s[0] == "unsetwild":
+            # exactly the headers of that object under the prefix (case-insensitively), with their sub-fields
+            pre = "%s.http." % prog.objs[s[1]]
+            derived = [n for n in pool if n.startswith(pre) and n[len(pre):].split(":")[0].lower().startswith(s[2].decode().lower())]
         what = "line %d `%s`" % (a["line"], prog_line(prog, a["line"]))
         # built-ins named on the line: their documented implicit cells (from the Go source) may change too
         fx = line_effects(prog_line(prog, a["line"]))
